@@ -250,6 +250,37 @@ def run(ctx):
             if abs(ta - ts) > 1e-9 * ts:
                 ctx.violation({'kind': 'amplitude-attenuated-at-the-rim', 'nseg>1': segd, 'upscale': s_ > 1},
                               {'n': n_, 'scale': s_, 'transmitted_with_scalar_amplitude': ts, 'with_array_of_ones': ta}, case=None)
+    # what the arrays hold OUTSIDE the mask carries no information and must not leak into the aperture when the plane is resampled:
+    # (a) a plane that was rescaled before (its arrays are zero outside its mask) - a constant OPD stays that constant through
+    #     rescale(1).rescale(s) and rescale(1.5).rescale(s) exactly as through rescale(s);
+    # (b) a plane whose tilt has been fitted (the ramp is removed inside the mask only, the array still holds it outside) - a pure
+    #     tilt leaves NO OPD inside the mask, before and after rescaling
+    for n_, s_ in ((64, 3), (65, 1.5), (48, 1.25), (65, 0.75)):
+        mk = lentil.circle((n_, n_), 0.4 * n_, antialias=False)
+        pist = 650e-9
+        rr_, cc_ = lentil.helper.mesh((n_, n_))
+        for route in ('twice-1', 'twice-1.5', 'fit_tilt'):
+            nleaf += 1
+            ctx.case(('outside-the-mask', n_, s_, route))
+            try:
+                if route == 'fit_tilt':
+                    ramp_ = 3e-6 * (rr_ / n_) - 2e-6 * (cc_ / n_)
+                    p0 = lentil.Pupil(amplitude=1, opd=ramp_, mask=mk, pixelscale=1.0 / n_, focal_length=10.0).fit_tilt()
+                    pr = p0.rescale(s_)
+                    level, scale_ = 0.0, 3e-6
+                    pre = float(np.abs(np.asarray(p0.opd)[mk != 0]).max())
+                else:
+                    p0 = lentil.Pupil(amplitude=1, opd=np.full((n_, n_), pist), mask=mk, pixelscale=1.0 / n_, focal_length=10.0)
+                    pr = p0.rescale(1 if route == 'twice-1' else 1.5).rescale(s_)
+                    level, scale_, pre = pist, pist, 0.0
+                inside = pr.mask != 0
+                dev = float(np.abs(np.asarray(pr.opd)[inside] - level).max() / scale_)
+            except Exception as ex:
+                ctx.violation({'kind': 'outside-the-mask-' + type(ex).__name__, 'route': route}, {'n': n_, 'scale': s_, 'error': repr(ex)[:200]}, case=None)
+                continue
+            if dev > 1e-9 or pre > 1e-9 * 3e-6:
+                ctx.violation({'kind': 'values-outside-the-mask-leak-into-the-aperture', 'route': route, 'upscale': s_ > 1},
+                              {'n': n_, 'scale': s_, 'max_opd_error_inside_the_new_mask_relative': dev}, case=None)
     # an aperture that FILLS its array: every new sample lies within the footprint of the old array (old coordinates -1/2 .. n-1/2), so
     # the new mask is ones everywhere, as the amplitude is - the transmitted power is that of the old plane
     for shape_, s_ in (((65, 65), 3), ((64, 64), 1.5), ((63, 97), 3), ((48, 65), 2.5)):
